@@ -247,8 +247,8 @@ def judge(idsets, flags, seed):
         except Exception as ex:      # noqa
             return f'staging raised {ex!r}'
         hid = hd['hid']
-        if len(hid) != len(truth) or np.any(np.diff(hid) < 0):
-            return f'ids {hid.tolist()} are not all halos in increasing order'
+        if len(hid) != len(truth) or np.any(np.diff(hid) < 0) or sorted(int(i) for i in hid) != sorted(truth):
+            return f'ids {hid.tolist()} are not exactly the halos of the slab files {idsets} in increasing order'
         fields = [('hpos', 'x_L2com'), ('hvel', 'v_L2com'), ('hmultis', 'multi_halos'), ('hrandoms', 'randoms'),
                   ('hveldev', 'randoms_exp' if flags.get('expvel') else 'randoms_gaus_vrms'), ('hsigma3d', 'sigmav3d_L2com'), ('hrvir', 'r98_L2com')]
         if flags.get('AB'):
